@@ -180,7 +180,7 @@ theorem error_status_no_effects_partial (r : Req) (hd : hitsBatchDefect r = fals
     simp only [handle, handleEvent] at he ⊢
     repeat' split
     all_goals first | rfl | skip
-    all_goals simp_all [Out.isError, Act.isError]
+    all_goals simp_all [Out.isError]
   | batch viaMux f items =>
     simp only [handle, handleBatch, hitsBatchDefect] at he hd ⊢
     rcases f with ⟨kb, rf, db, ef, pf, cb⟩
@@ -205,7 +205,7 @@ theorem error_status_no_effects_fixed : ErrorStatusNoEffects true := by
     simp only [handle, handleEvent] at he ⊢
     repeat' split
     all_goals first | rfl | skip
-    all_goals simp_all [Out.isError, Act.isError]
+    all_goals simp_all [Out.isError]
   | batch viaMux f items =>
     simp only [handle, handleBatch] at he ⊢
     rcases f with ⟨kb, rf, db, ef, pf, cb⟩
